@@ -1829,3 +1829,69 @@ def huffman_expanding_table_stream(start_id=30000):
             ops.append('eenc %d 1 %s:%s:0' % (e_, hx(b'k'), hx(b'\x00' * ln)))
             ops.append('pipe %d 1 %d' % (e_, e_))
     return ops
+
+
+
+def huff_power_length_strings(maxk=17):
+    """strings whose Huffman code is exactly 2^k bits long (k = 10..17), one symbol shorter and one longer, for
+    symbols of every code length that divides it, plain repetition and a mix: flushing / slicing at a power-of-two
+    number of pending bits or octets shows only there"""
+    from refmodel import LENGTHS
+    by_len = {}
+    for s_ in range(256):
+        by_len.setdefault(LENGTHS[s_], []).append(s_)
+    out = []
+    for k in range(10, maxk + 1):
+        bits = 1 << k
+        for L in (5, 6, 7, 8):
+            if bits % L:
+                # mix: fill with L-bit symbols and finish with 8-bit ones so that the total is exact
+                cnt = bits // L
+                while cnt > 0 and (bits - cnt * L) % 8:
+                    cnt -= 1
+                rest = (bits - cnt * L) // 8
+                s = bytes(by_len[L][j % len(by_len[L])] for j in range(cnt)) + bytes(by_len[8][j % len(by_len[8])] for j in range(rest))
+                out.append(s)
+                continue
+            cnt = bits // L
+            syms = by_len[L]
+            out.append(bytes([syms[0]]) * cnt)
+            out.append(bytes(syms[j % len(syms)] for j in range(cnt)))
+            out.append(bytes([syms[0]]) * (cnt - 1))
+            out.append(bytes([syms[0]]) * (cnt + 1))
+    # the same at octet counts that are powers of two (slicing by input length), varied content
+    for k in (12, 13, 15, 16):
+        if k > maxk:
+            continue
+        n = 1 << k
+        for delta in (0, 1, 7):
+            out.append(bytes((j * 37 + j // 251) % 256 for j in range(n + delta)))
+            out.append(bytes(b'abcdefghijklmnopqrstuvwxyz0123456789-_ '[(j * 7) % 39] for j in range(n + delta)))
+    return out
+
+
+
+def power_length_conn_stream(start_id=31000, full=False):
+    """connections (Huffman on) carrying values and names of the power-of-two code lengths / octet counts, values
+    beyond 32 KiB of varied text, on a default table and on a raised one (so that they are also indexed)"""
+    ops = []
+    i = start_id
+    strs = [x for x in huff_power_length_strings(17 if full else 14) if len(x) <= 70000]
+    al = b'abcdefghijklmnopqrstuvwxyz0123456789-_ /=;'
+    strs += [bytes(al[(j * 11 + j // 97) % len(al)] for j in range(n)) for n in ((32767, 32768, 32769, 40000, 66000) if full else (32769, 40000))]
+    # several long strings of different content: a carry lost at a slice boundary shows only for some bit patterns
+    strs += [bytes(al[(j * m + j // 89 + m) % len(al)] for j in range(33000 + 1000 * m)) for m in ((3, 5, 7, 13, 17, 19, 23, 29) if full else (3, 5, 7, 13, 17))]
+    for tsize in (4096, 1 << 20):
+        i += 1
+        ops.append('enew %d' % i); ops.append('dnew %d 100000000' % i); ops.append('dallow %d %d' % (i, 1 << 21))
+        if tsize != 4096:
+            ops.append('esize %d %d' % (i, tsize))
+        for j, x in enumerate(strs):
+            if tsize != 4096 and j % 3:
+                continue
+            if j % 4 == 3:
+                ops.append('eenc %d 1 %s:%s:0' % (i, hx(x[:60000]), hx(b'v')))
+            else:
+                ops.append('eenc %d 1 %s:%s:%d' % (i, hx(b'k%d' % (j % 5)), hx(x), 1 if j % 7 == 6 else 0))
+            ops.append('pipe %d 1 %d' % (i, i))
+    return ops
